@@ -92,7 +92,7 @@ def _is_zero(x):
 def decoder_test_class(t):
     """the kind of test a key decoder may branch on; None = a test outside the reviewed inverse pair"""
     B = Sym('bytes')
-    if t == App('first', B):
+    if t == App('first', B) or t == App('index', B, Int(0)):
         return 'tag'
     if t[0] == 'app' and len(t[2]) == 2 and t[1] in ('eq', 'ct_eq', 'Ne', 'Eq', 'ne'):
         a, b = t[2]
@@ -272,6 +272,11 @@ def run(ctx):
                 want = CODEC_PAIRS[kind][marks[0]]
                 for p in ds.ok_paths:
                     v = p.payload
+                    if marks[0] == '<identity>' and not subterms(v, lambda t: t[0] == 'app' and t[1] not in ('Slice', 'try_into_array')) and mentions(v, Sym('bytes')) and any(
+                            e[0] == 'assume' and e[2] == 1 and decoder_test_class(e[1]) == 'fixed-point' for e in p.events):
+                        # the decoder hands back the input itself after testing that normalising it changes nothing
+                        detail += ' ; decoder accepts %s (a fixed point of the normaliser)' % show(v)[:80]
+                        continue
                     hit = any((w.startswith('adt:') and subterms(v, lambda t: t[0] == 'adt' and t[1] == w[4:])) or (not w.startswith('adt:') and find_apps(v, w)) for w in want)
                     good = good and hit
                     detail += ' ; decoder accepts %s' % show(v)[:160]
@@ -328,9 +333,9 @@ def run(ctx):
                 if v in seen:
                     continue
                 seen.add(v)
-                nz = any(e[0] == 'assume' and e[2] == 0 and e[1][0] == 'app' and e[1][1] in ('eq', 'ct_eq') and v in e[1][2] and any(
-                    (x[0] == 'bytes' and x[1] and not any(x[1])) or (x[0] == 'app' and x[1].endswith('to_bytes') and x[2] and x[2][0][0] == 'bytes' and not any(x[2][0][1]))
-                    for x in e[1][2]) for e in p.events)
+                nz = any(e[0] == 'assume' and e[2] == 0 and e[1][0] == 'app' and e[1][1] in ('eq', 'ct_eq', 'Eq') and v in e[1][2] and any(
+                    _is_zero(x) or (x[0] == 'bytes' and x[1] and not any(x[1])) for x in e[1][2]) for e in p.events) or any(
+                    e[0] == 'assume' and e[2] == 1 and e[1][0] == 'app' and e[1][1] in ('ne', 'Ne') and v in e[1][2] and any(_is_zero(x) for x in e[1][2]) for e in p.events)
                 good = False
                 if v[0] == 'app' and v[1] == 'curve25519_dalek::scalar::Scalar::random' and tuple(v[2]) == (Sym('rng'),):
                     good = nz
